@@ -239,7 +239,7 @@ func child(job, outPath string) {
 	env := univ.Bind(registry.Probes[job]())
 	w := &worker{cr: cr, name: job, env: env, srv: drive.NewServer(env), ignore: map[int64]bool{}, wl: fmt.Sprint(env.Probe.Options["worker_limit"])}
 	seed := ev.Seed()
-	nRandom := ev.Pick(4, 30)
+	nRandom := ev.Pick(4, 80)
 	type opT struct {
 		op  *opgen.Op
 		doc *ast.QueryDocument
@@ -536,7 +536,7 @@ func (w *worker) transports() {
 		`{ scalar ... @defer { xboom(b: "mpanic:7") } }`,
 	}
 	n := 0
-	rounds := ev.Pick(3, 20)
+	rounds := ev.Pick(3, 40)
 	for round := 0; round < rounds; round++ {
 		for qi, q := range queries {
 			for _, tr := range []string{"post", "get", "sse", "mixed"} {
